@@ -223,7 +223,7 @@ class Dropper:
         n = v.name or ''
         if n == '<moved>':
             return
-        if n == 'leaf' and v.extra and v.extra.get('kind') in ('handle', 'stream') and v.extra.get('pend') and not v.extra.get('done'):
+        if n == 'leaf' and v.extra and v.extra.get('kind') in ('handle', 'stream', 'started', 'stopped', 'finished') and v.extra.get('pend') and not v.extra.get('done'):
             # a user callback future that was polled but never completed is dropped: the callback is abandoned
             st.event('user_abandoned', v.extra['kind'], v.extra.get('n'), v.extra.get('actor'), why[:40])
         if n == 'Arc':
@@ -509,6 +509,58 @@ def m_rx_poll_next(e, st, fr, t, args):
         return ready(NONE)
     block_on(st, r.extra['oid'])
     return PENDING
+
+
+# ---- stream adapters over the receiver: rx.ready_chunks(k).flat_map(stream::iter) (prefetching mailboxes)
+def m_ready_chunks(e, st, fr, t, args):
+    cap = e.as_int_expr(args[1])
+    if not isinstance(cap, int):
+        cap = e.concrete_int(st, args[1]) if hasattr(e, 'concrete_int') else None
+    if cap is None:
+        raise Unsupported("ready_chunks with a symbolic capacity")
+    return VAgg(name='ReadyChunks', fields={('f', 0): args[0]}, extra={'cap': cap})
+
+
+def m_flat_map_iter(e, st, fr, t, args):
+    f = args[1]
+    if not (isinstance(f, VConst) and re.search(r'(^|::)iter::<', f.text)):
+        raise Unsupported(f"flat_map with {f!r}")
+    return VAgg(name='FlatMapIter', fields={('f', 0): args[0]}, extra={'buf': ()})
+
+
+def m_flat_map_poll_next(e, st, fr, t, args):
+    ref = peel(e, st, args[0])
+    fm = _load(e, st, ref)
+    if not (isinstance(fm, VAgg) and fm.name == 'FlatMapIter'):
+        return NotImplemented
+    buf = fm.extra['buf']
+    if not buf:
+        rcref = VRef(ref.root, ref.path + (('f', 0),), True)
+        rc = _load(e, st, rcref)
+        if not (isinstance(rc, VAgg) and rc.name == 'ReadyChunks'):
+            raise Unsupported(f"flat_map over {rc!r}")
+        rxref = VRef(rcref.root, rcref.path + (('f', 0),), True)
+        items = []
+        ended = False
+        # ReadyChunks::poll_next: take items while the inner stream is ready, up to cap
+        while len(items) < max(1, rc.extra['cap']):
+            pv = m_rx_poll_next(e, st, fr, t, [rxref, args[1]])
+            if pv is NotImplemented:
+                raise Unsupported("ready_chunks over an unmodelled stream")
+            if pv.vname != 'Ready':
+                break
+            opt = pv.fields[('v', 'Ready', 0)]
+            if opt.vname == 'None':
+                ended = True
+                break
+            items.append(opt.fields[('v', 'Some', 0)])
+        if not items:
+            return ready(NONE) if ended else PENDING
+        buf = tuple(items)
+        st.event('chunk_prefetched', len(buf))
+    x, rest = buf[0], buf[1:]
+    _store(e, st, ref, VAgg(name='FlatMapIter', fields=fm.fields, extra={'buf': rest}))
+    return ready(some(x))
 
 
 # =========================================================================== futures::channel::oneshot
@@ -1280,6 +1332,9 @@ def install(eng: Engine, resolver):
     add(r'^(futures::futures_channel::mpsc::)?UnboundedSender::<.*>::len$', m_unbounded_len)
     add(r'^<(futures::futures_channel::mpsc::)?(Unbounded)?Sender<.*> as SinkExt<.*>>::send$', m_sink_send)
     add(r'^<&mut (futures::futures_channel::mpsc::)?(Unbounded)?Receiver<.*> as Stream>::poll_next$', m_rx_poll_next)
+    add(r'^<(futures::futures_channel::mpsc::)?(Unbounded)?Receiver<.*> as (futures::)?StreamExt>::ready_chunks$', m_ready_chunks)
+    add(r'^<(futures::stream::)?ReadyChunks<.*> as (futures::)?StreamExt>::flat_map::<', m_flat_map_iter)
+    add(r'^<&mut (futures::stream::)?FlatMap<.*> as Stream>::poll_next$', m_flat_map_poll_next)
     add(r'oneshot::channel::<', m_oneshot_channel)
     add(r'oneshot::Sender::<.*>::send$', m_oneshot_send)
     add(r' as FutureExt>::shared$', m_shared)
